@@ -228,6 +228,9 @@ def _get_payload(msg: email.message.Message, source: bytes | str) -> str:
     # If our source is a bytes, then we're managing the encoding and we need
     # to deal with it.
     else:
+        # Core metadata has no Content-Transfer-Encoding header; do not let a
+        # stray one make `decode=True` rewrite (or drop) the body.
+        del msg["content-transfer-encoding"]
         bpayload = msg.get_payload(decode=True)
         assert isinstance(bpayload, bytes)
         try:
